@@ -543,6 +543,10 @@ def coll_task(t, res):
 
 # ------------------------------------------------------------------------------------------------ driver
 def any_task(t, res):
+    if t["kind"] == "chain":
+        from . import c05_chain
+
+        return c05_chain.chain_task(t, res)
     (ds_task if t["kind"] == "ds" else coll_task)(t, res)
 
 
@@ -558,11 +562,17 @@ def run(ctx):
     # interleave so that tasks are of similar size
     tasks = [dict(kind="ds", dspecs=[[list(d), fam] for d, fam in dspecs[i::nd]], first=(i == 0)) for i in range(nd)]
     tasks += [dict(kind="coll", cspecs=[list(c) for c in cspecs[i::nc]]) for i in range(nc)]
+    from . import c05_chain
+
+    chain_depth = 3
+    tasks += [dict(kind="chain", start=si, first=f, depth=chain_depth) for si in range(len(c05_chain.STARTS) if not ctx.quick else 2) for f in c05_chain.OPS]
     ctx.pmap(MOD, "any_task", tasks)
     n_cases = sum(len(cases_for(d, fam)) for d, fam in dspecs)
     dspecs = [d for d, _ in dspecs]
     ctx.coverage.update(
         datasets=len(dspecs), dataset_cases=n_cases, collection_cases=len(cspecs),
+        chains=dict(ops=c05_chain.OPS, depth=chain_depth, start_datasets=[list(x) for x in c05_chain.STARTS[:len(c05_chain.STARTS) if not ctx.quick else 2]],
+                    chains_run=ctx.res.counters.get("chains", 0)),
         generated_datasets=sum(1 for d in dspecs if d[0] == "gen"), crafted_datasets=sum(1 for d in dspecs if d[0] == "craft"),
         generators=generators(), grids=sorted({d[2] if d[0] == "gen" else d[1] for d in dspecs}),
         lengths=sorted({d[3] if d[0] == "gen" else len(d[2]) for d in dspecs}),
@@ -572,7 +582,8 @@ def run(ctx):
     )
     ctx.rule = ("every (dataset, format, transport) triple of the stated space is written and read back on the real implementation and "
                 "compared maze by maze with a snapshot; distinct non-trivial = distinct cases whose dataset has ragged solution lengths, "
-                "a 1- or 2-cell solution, or collected metadata to compare; plus every (member tuple, threshold, wiring, transport) collection case")
+                "a 1- or 2-cell solution, or collected metadata to compare; plus every (member tuple, threshold, wiring, transport) collection case; plus every chain of "
+                "<= 3 steps over 7 round trips + in-place metadata collection + an identity filter, each round trip judged against the state it started from")
     ctx.exhaustive = True
     ctx.assumptions += [
         "datasets with generation_meta on some mazes only are not in the stated space (with / without is a dataset-level attribute)",
@@ -589,7 +600,11 @@ def _tup(x):
 def replay(d, res):
     tmpdir = tempfile.mkdtemp(prefix="mzc05_", dir=os.environ.get("TMPDIR") or "/var/tmp")
     try:
-        if d["kind"] == "ds":
+        if d["kind"] == "chain":
+            from . import c05_chain
+
+            c05_chain.replay(d, res)
+        elif d["kind"] == "ds":
             run_case((_tup(d["dspec"]), _tup(d["fmt"]), d["transport"]), tmpdir, res)
         else:
             c = d["cspec"]
